@@ -52,12 +52,14 @@ def snapshot(root, skip=()):
     return out
 
 
-def mk_tree(store, spec):
+def mk_tree(store, spec, box=b""):
     """spec: list of [path-hex, kind, payload]: kind f (file), x (executable), l (symlink, payload = target hex), m<octal> (file with raw mode)"""
     from dulwich.index import commit_tree
     entries = []
     for ph, kind, payload in spec:
         data = bytes.fromhex(payload) if payload else b"data of " + bytes.fromhex(ph)
+        if kind == "l":
+            data = data.replace(b"@BOX@", box)       # absolute targets stay inside the sandbox directory
         b = Blob.from_string(data)
         store.add_object(b)
         mode = {"f": 0o100644, "x": 0o100755, "l": 0o120000}.get(kind)
@@ -104,10 +106,12 @@ def sandbox(req):
             f.write(b"canary")
         with open(os.path.join(box, "outside_dir", "victim"), "wb") as f:
             f.write(b"victim")
+        with open(os.path.join(box, "outside_dir", "x"), "wb") as f:
+            f.write(b"data of d/x")
         src = Repo.init_bare(os.path.join(base, "src.git"), mkdir=True)
         commits, parent = [], None
         for n, spec in enumerate(req["trees"]):
-            t = mk_tree(src.object_store, spec)
+            t = mk_tree(src.object_store, spec, os.fsencode(box))
             c = mk_commit(src.object_store, t, parent, n)
             parent = c.id
             commits.append(c.id)
@@ -174,6 +178,9 @@ def sandbox(req):
                         porcelain.reset(r, "hard", target)
                     elif op == "checkout":
                         porcelain.checkout(r, target, force=True)
+                    elif op == "reset-index":
+                        # build_index_from_tree over whatever is in the work tree (Repo.reset_index, stash, restore use it)
+                        r.get_worktree().reset_index(r[target].tree)
                     elif op == "checkout-branch":
                         name = b"b%d" % commits.index(target)
                         r.refs[b"refs/heads/" + name] = target
@@ -195,11 +202,11 @@ def sandbox(req):
             os.open = saved_os_open
         # the sandbox outside the work tree must be exactly what it was
         snap = snapshot(box, skip=("wt",))
-        want = {"canary": ("file", snap.get("canary", (0, 0))[1], b"canary"), "outside_dir/victim": ("file", snap.get("outside_dir/victim", (0, 0))[1], b"victim")}
-        for k in ("canary", "outside_dir/victim"):
+        want = {"canary": ("file", 0, b"canary"), "outside_dir/victim": ("file", 0, b"victim"), "outside_dir/x": ("file", 0, b"data of d/x")}
+        for k in ("canary", "outside_dir/victim", "outside_dir/x"):
             if snap.get(k, (None,))[0] != "file" or snap[k][2] != want[k][2]:
                 problems.append("%s outside the work tree was changed or removed" % k)
-        extra = sorted(k for k in snap if k not in ("canary", "outside_dir", "outside_dir/victim"))
+        extra = sorted(k for k in snap if k not in ("canary", "outside_dir", "outside_dir/victim", "outside_dir/x"))
         if extra:
             problems.append("new entries outside the work tree: %s" % extra[:5])
         if os.path.isdir(gitdir):
